@@ -55,13 +55,17 @@ func (f *Field) Private() bool {
 func Fields(typesMap TypesMap, typ *types.Struct, external bool) *Named {
 	numFields := typ.NumFields()
 	n := &Named{
-		Fields: make([]*Field, numFields),
+		Fields: make([]*Field, 0, numFields),
 	}
 	for i := 0; i < numFields; i++ {
 		field := typ.Field(i)
 		fieldType := field.Type()
 		fieldName := field.Name()
-		n.Fields[i] = &Field{
+		if fieldName == "_" {
+			// blank fields cannot be referred to; == ignores them as well.
+			continue
+		}
+		f := &Field{
 			name:     fieldName,
 			external: external,
 			Type:     fieldType,
@@ -69,7 +73,8 @@ func Fields(typesMap TypesMap, typ *types.Struct, external bool) *Named {
 				return typesMap.TypeString(fieldType)
 			},
 		}
-		if n.Fields[i].Private() {
+		n.Fields = append(n.Fields, f)
+		if f.Private() {
 			if external {
 				n.Reflect = true
 			}
